@@ -287,6 +287,9 @@ void WorldQ::on_command(const SpawnCmd &c0) {
   GRcpt *r = nullptr;
   for (auto &x : m->rc) if (x.chan == ch && x.addr == c.recip) { if (!r || (r->marked && !x.marked)) r = &x; }
   if (!r) { if (enabled("c04")) violate("C04.command-for-unknown-recipient", m->id + " " + printable(c.recip)); return; }
+  for (auto &pr : bynum) for (auto &x : pr.second->rc) if (&x != r && x.chan == ch && x.outstanding == c.delnum) x.outstanding = -1;   // number handed out again: the earlier holder was released
+  r->maybe_verdict = 0;
+  { auto fl = floating[ch].find(c.delnum); if (fl != floating[ch].end()) { r->maybe_verdict = fl->second.empty() ? '?' : fl->second[0]; floating[ch].erase(fl); k->probe("ambiguous_report_window"); } }
   if (enabled("c04")) {
     if (r->outstanding >= 0) violate("C04.two-attempts-in-flight", m->id + " " + r->addr);
     bool judge = !io_faults_in_daemon;
@@ -345,7 +348,7 @@ void WorldQ::on_send_event(const Event &e) {
   if (e.call == C_EXEC || e.call == C_SPAWN) {
     if (p->tag == "second") return;
     send_pid = e.pid; send_incarnation++; send_exiting = false; send_term_seen = false; rc_valid = false; rc_reading = false;
-    for (int c = 0; c < 2; c++) { delnum_used[c].clear(); outstanding_count[c] = 0; cmdbuf[c].clear(); }
+    for (int c = 0; c < 2; c++) { delnum_used[c].clear(); outstanding_count[c] = 0; cmdbuf[c].clear(); repbuf[c].clear(); greeted[c] = false; floating[c].clear(); }
     for (auto &pr : bynum) for (auto &r : pr.second->rc) { r.outstanding = -1; r.cmds_since_boot = 0; }
     return;
   }
@@ -393,6 +396,7 @@ void WorldQ::on_send_event(const Event &e) {
           GRcpt *r = nullptr; for (auto &x : m->rc) if (x.chan == ch && x.off == (uint64_t)e.off) r = &x;
           if (!r) { if (enabled("c03")) violate("C03.mark-at-wrong-offset", m->id + " " + e.path + " offset " + std::to_string(e.off)); break; }
           bool dying = m->birth + lifetime < r->last_cmd_t + 1 || m->birth + lifetime < k->clock;
+          if (r->last_verdict != 'K' && r->last_verdict != 'D' && (r->maybe_verdict == 'K' || r->maybe_verdict == 'D' || (r->maybe_verdict == 'Z' && dying))) { r->last_verdict = r->maybe_verdict; if (r->maybe_verdict == 'K') r->k_reports++; }
           if (enabled("c03")) {
             if (r->last_verdict == 'K' || r->last_verdict == 'D') {}
             else if (r->last_verdict == 'Z' && dying) {}
@@ -419,6 +423,30 @@ void WorldQ::on_send_event(const Event &e) {
     case C_OPEN:
       if (e.ret >= 0 && parse_qpath(e.path, dir, n) && dir == "bounce" && (e.a & O_ACCMODE) == O_RDONLY) { bounce_open_n = n; }
       break;
+    case C_READ: {
+      // reports reach the daemon here. Wire format: records ended by NUL; first byte delivery number, second the verdict letter.
+      if (e.ret <= 0 || e.ino || !e.pipe || (e.fd != 2 && e.fd != 4)) break;
+      int ch = e.fd == 2 ? 0 : 1;
+      size_t from = 0;
+      if (!greeted[ch]) { greeted[ch] = true; from = 1; }   // the spawner's first byte announces its concurrency limit
+      for (size_t q = from; q < (size_t)e.ret; q++) {
+        char c = e.data[q]; std::string &b = repbuf[ch];
+        if (b.size() < 10000) b.push_back(c); else if (!c) b[9999] = 0;
+        if (!c && b.size() > 1) {
+          int dn = (unsigned char)b[0]; std::string text = b.substr(1, b.size() - 2); if (text.find('\0') != std::string::npos) text = text.substr(0, text.find('\0'));
+          if (delnum_used[ch].count(dn) && dn < std::min(conc[ch], spawn_limit[ch])) on_report(ch, dn, text, true);
+          else {
+            // Only a hostile peer reports a delivery number that is not in flight. The daemon considers a number in use from the
+            // moment it buffers the command, the ghost from the moment the command bytes leave: a report read in between is
+            // ambiguous. Remember it; it may legitimately have been applied to the next command with that number.
+            k->probe("report_for_unused_or_out_of_range_delnum");
+            if (dn < std::min(conc[ch], spawn_limit[ch])) floating[ch][dn] = text;
+          }
+          b.clear();
+        }
+      }
+      break;
+    }
     case C_STAT:
       if (parse_qpath(e.path, dir, n) && dir == "bounce") { bounce_open_n = n; bounce_child_seen = false; bounce_child_status = -1; }
       break;
